@@ -189,24 +189,31 @@ PROPS = {
         "level": "other",
         "property_obligations": ["ExternalEquivalenceTask::ensure_program_tightness", "ExternalEquivalenceTask::ensure_placeholder_name_uniqueness",
                                  "ExternalEquivalenceTask::ensure_specification_roles_are_supported", "ExternalEquivalenceTask::ensure_valid_formula_representation",
-                                 "UserGuide::placeholders", "ChecksTask::checks_block", "callsite_roles_checked_before_routing"],
-        "carriers": [],
-        "explanation": "Four of the nine applicability checks are proved exact on the real code (Verus): ensure_program_tightness refuses iff the program is not tight and --bypass-tightness is off, and accepts a non-tight "
+                                 "ExternalEquivalenceTask::ensure_input_and_output_predicates_are_disjoint",
+                                 "ExternalEquivalenceTask::ensure_specification_assumptions_do_not_contain_output_predicates",
+                                 "ExternalEquivalenceTask::ensure_assumptions_only_contain_input_symbols",
+                                 "UserGuide::placeholders", "UserGuide::input_predicates", "UserGuide::output_predicates", "ChecksTask::checks_block", "callsite_roles_checked_before_routing"],
+        "carriers": ["AnnotatedFormula::predicates", "Formula::predicates"],
+        "explanation": "Seven of the nine applicability checks are proved exact on the real code (Verus): ensure_program_tightness refuses iff the program is not tight and --bypass-tightness is off, and accepts a non-tight "
                        "program only with a warning; ensure_placeholder_name_uniqueness refuses iff two declared placeholders (distinct name/sort pairs, via the real UserGuide::placeholders) share a name; "
-                       "ensure_specification_roles_are_supported refuses iff some formula has a role other than assumption/spec/definition; ensure_valid_formula_representation refuses iff the representation is not tau-star. "
-                       "NOT decided: Tightness::is_tight and PrivateRecursion::has_private_recursion themselves (petgraph, HashMap), the five checks built on set iterator chains "
-                       "(intersection/cloned/difference/filter), regularity (= C08). "
+                       "ensure_specification_roles_are_supported refuses iff some formula has a role other than assumption/spec; ensure_valid_formula_representation refuses iff the representation is not tau-star; "
+                       "ensure_input_and_output_predicates_are_disjoint refuses iff some predicate is declared both input and output (with the real UserGuide::input_predicates/output_predicates, proved to return exactly "
+                       "the declared predicates); ensure_specification_assumptions_do_not_contain_output_predicates refuses iff some assumption of the specification mentions (real Formula::predicates) an output predicate; "
+                       "ensure_assumptions_only_contain_input_symbols refuses iff some assumption mentions a predicate that is neither among the given private/input symbols nor declared input. "
+                       "NOT decided: Tightness::is_tight and PrivateRecursion::has_private_recursion themselves (petgraph, HashMap), ensure_rule_heads_do_not_contain_input_predicates and "
+                       "ensure_absence_of_private_recursion (map/collect into an IndexSet), regularity (= C08). "
                        "The call sites ARE decided: the block of ensure_* calls of ExternalEquivalenceTask::decompose is extracted as a statement fragment and proved (with stand-ins that record which check is applied to which "
                        "arguments) to let a task through only if every documented check was made on the right object — in particular each program is checked for private recursion against ITS OWN private predicates — "
                        "and the block precedes all translation and emission statements of decompose (it ends at the anchor `fn head_predicate`).",
         "assumptions": [
             "Tightness::is_tight is an uninterpreted function of the program here (petgraph is_cyclic_directed, HashMap): NOT verified",
             "PrivateRecursion::has_private_recursion: NOT verified",
-            "ensure_absence_of_private_recursion, ensure_input_and_output_predicates_are_disjoint, ensure_rule_heads_do_not_contain_input_predicates, "
-            "ensure_specification_assumptions_do_not_contain_output_predicates, ensure_assumptions_only_contain_input_symbols: NOT verified (iterator adapters over set operations)",
+            "ensure_absence_of_private_recursion, ensure_rule_heads_do_not_contain_input_predicates: NOT verified (into_iter().map(From::from).collect() into an IndexSet)",
+            "indexmap shim: intersection(..).cloned().collect::<Vec<_>>() yields exactly the common elements; append = extend; difference(..).next() per indexmap documentation",
+            "D23: `let v: Vec<_> = E.into_iter().filter(|p| ..).collect();` desugared to an explicit loop",
             "checks_block: D9 fragment of ExternalEquivalenceTask::decompose with the ensure_* methods as recording stand-ins; ensure_valid_formula_representation (first statement of decompose) and the computation of the private predicate sets precede the fragment and are not part of it",
         ],
-        "not_covered": ["is_tight", "has_private_recursion", "5 of 9 ensure_* methods", "call sites in ExternalEquivalenceTask::decompose", "analyze --property"],
+        "not_covered": ["is_tight", "has_private_recursion", "ensure_rule_heads_do_not_contain_input_predicates", "ensure_absence_of_private_recursion"],
     },
     "C12": {
         "units": ["strong"],
